@@ -400,17 +400,22 @@ def check_bindings(ctx):
     for w in ('kmer_to_index', 'kmer_to_index_rc'):
         fi = m.func(f'gambit.kmers.{w}')
         rep.functions.add(fi.qualname)
-        rets = [s for s in fi.node.body if isinstance(s, ast.Return)]
-        rep.require(len(rets) == 1 and isinstance(rets[0].value, ast.Call), f'{fi.qualname}: not a single-call wrapper')
-        call = rets[0].value
+        # the value the wrapper returns, on every feasible path, with locals substituted (a shared helper expanded in place leaves
+        # `if True/False:` dispatch and a local for the converted argument: still one call of one Cython function)
+        from .c01 import enum_paths, return_values
+        paths, _ = enum_paths(fi, fi.qualname)
+        rep.require(not any(p.effects for p in paths), f'{fi.qualname}: calls executed for their effect are outside the evaluated vocabulary')
+        vals = return_values([p for p in paths if p.kind != 'raise'], fi.qualname)
+        rep.require(len(vals) == 1 and isinstance(vals[0][0], ast.Call), f'{fi.qualname}: not a single-call wrapper')
+        call, site_stmt = vals[0][0], vals[0][3]
         target = m.resolve_call(fi, call)
-        rep.add('T9', fi.site(call), f'{w} forwards to the matching Cython function (not crossed)', target == f'{PYX}.{w}',
+        rep.add('T9', fi.site(site_stmt), f'{w} forwards to the matching Cython function (not crossed)', target == f'{PYX}.{w}',
                 expected=f'{PYX}.{w}', found=target, stmt=call)
-        arg = call.args[0] if call.args else None
-        ok = isinstance(arg, ast.Call) and m.resolve_call(fi, arg) == 'gambit.seq.seq_to_bytes' and u(arg.args[0]) == fi.params()[0]
-        rep.add('T9', fi.site(call), 'argument goes through seq_to_bytes unchanged', ok, expected=f'seq_to_bytes({fi.params()[0]})',
-                found=u(arg), stmt=call)
-
+        arg = call.args[0] if len(call.args) == 1 and not call.keywords else None
+        ok = isinstance(arg, ast.Call) and m.resolve_call(fi, arg) == 'gambit.seq.seq_to_bytes' and len(arg.args) == 1 and not arg.keywords \
+            and u(arg.args[0]) == fi.params()[0]
+        rep.add('T9', fi.site(site_stmt), 'argument goes through seq_to_bytes unchanged', ok, expected=f'seq_to_bytes({fi.params()[0]})',
+                found=u(arg) if arg is not None else u(call), stmt=call)
 
 def check(ctx):
     rep, m = ctx.rep, ctx.model
@@ -460,6 +465,7 @@ def check(ctx):
 from ..variants import V  # noqa: E402
 
 _K = 'src/gambit/_cython/kmers.pyx'
+_KIH = "def _kmer_index(kmer, reverse):\n\tkmer_bytes = seq_to_bytes(kmer)\n\tif reverse:\n\t\treturn ckmers.kmer_to_index_rc(kmer_bytes)\n\treturn ckmers.kmer_to_index(kmer_bytes)\n\n\n"
 VARIANTS = [
     V('encoder digits C/G swapped', 'B', _K, "\t\telif nuc == 'C':\n\t\t\tidx += 1\n\t\telif nuc == 'G':\n\t\t\tidx += 2",
       "\t\telif nuc == 'C':\n\t\t\tidx += 2\n\t\telif nuc == 'G':\n\t\t\tidx += 1", 'T1'),
@@ -505,4 +511,14 @@ VARIANTS = [
       "\t\t\tidx += 3\n\t\telse:\n\t\t\texc[0] = True"),
     V('E: mask merged into the load', 'E', _K, "\t\tnuc = kmer[i]\n\n\t\tidx <<= 2\n\n\t\tnuc &= 0b11011111  # To upper case\n",
       "\t\tnuc = kmer[i] & 0xDF\n\n\t\tidx <<= 2\n\n"),
+    # T9 by the value each wrapper returns (helper shared by both wrappers, expanded in place)
+    V('E: both Python wrappers through one helper with a reverse flag', 'E', 'src/gambit/kmers.py', "\treturn ckmers.kmer_to_index(seq_to_bytes(kmer))\n", "\treturn _kmer_index(kmer, False)\n",
+      also=[('src/gambit/kmers.py', "\treturn ckmers.kmer_to_index_rc(seq_to_bytes(kmer))\n", "\treturn _kmer_index(kmer, True)\n"),
+            ('src/gambit/kmers.py', "def kmer_to_index(kmer: 'DNASeq') -> int:", _KIH + "def kmer_to_index(kmer: 'DNASeq') -> int:")]),
+    V('shared helper: wrappers pass the flags the wrong way round', 'B', 'src/gambit/kmers.py', "\treturn ckmers.kmer_to_index(seq_to_bytes(kmer))\n", "\treturn _kmer_index(kmer, True)\n", 'T9',
+      also=[('src/gambit/kmers.py', "\treturn ckmers.kmer_to_index_rc(seq_to_bytes(kmer))\n", "\treturn _kmer_index(kmer, False)\n"),
+            ('src/gambit/kmers.py', "def kmer_to_index(kmer: 'DNASeq') -> int:", _KIH + "def kmer_to_index(kmer: 'DNASeq') -> int:")]),
+    V('shared helper strips the k-mer before encoding', 'B', 'src/gambit/kmers.py', "\treturn ckmers.kmer_to_index(seq_to_bytes(kmer))\n", "\treturn _kmer_index(kmer, False)\n", 'T9',
+      also=[('src/gambit/kmers.py', "\treturn ckmers.kmer_to_index_rc(seq_to_bytes(kmer))\n", "\treturn _kmer_index(kmer, True)\n"),
+            ('src/gambit/kmers.py', "def kmer_to_index(kmer: 'DNASeq') -> int:", _KIH.replace("seq_to_bytes(kmer)\n", "seq_to_bytes(kmer).strip()\n") + "def kmer_to_index(kmer: 'DNASeq') -> int:")]),
 ]
